@@ -1,5 +1,5 @@
 """C03 — execution lifecycle is respected and finished results are final."""
-GEN = ['states']
+GEN = ['states', 'race_scripts']
 MANIFEST = {
     'technique': 'Lean 4 theorems over the regenerated transition table, the lifecycle guard model (exhaustively '
                  'compared with the real objects) and the engine model (step-by-step refinement check)',
@@ -12,16 +12,55 @@ MANIFEST = {
             'event history), success_never_left_engine. Ties: lifecycle stream = EVERY state x EVERY operation on the '
             'real workflow/task/action objects (exhaustive, ~280 cases); core stream; engine stream with operator '
             'commands (monitors: every committed workflow state change is a documented move, SUCCESS tasks never '
-            'change, accepted flag rises at most once, finished executions frozen).',
+            'change, accepted flag rises at most once, finished executions frozen). STATEMENT GRANULARITY (below one '
+            'transaction; docs/RACE.md): Model Mistral.Race (one row under READ COMMITTED: reads, pending ORM writes with '
+            'dirty check, compare-and-swap, conditional delete, row lock; an arbitrary interferer function in EVERY gap '
+            'between two statements). Scripts REGENERATED from workflows.py / workflow_handler.py / db api / models.py by '
+            'translate/race_scripts.py on every run: _succeed_workflow, _fail_workflow, _cancel_workflow with set_state and '
+            'update_workflow_execution_state inlined, and the completion-check transaction (stale guards, expire_all, '
+            're-read, force-fail handler). Theorems for ALL interference schedules (Props.C03Race, C03RaceCac): '
+            'succeed/fail/cancel_atomic (the script changes nothing, or installs state+output+state_info+accepted together '
+            'at the instant of its compare-and-swap on a row whose state it had read), fail/cancel_keeps_finished (a row '
+            'finished at that instant keeps state, state_info, output; nothing is reported), '
+            'succeed_keeps_finished (full since repo fix ce9b9520), *_state_output_together, cac_succeed_atomic, '
+            'cac_succeed_keeps_finished (the race of the completion check with a concurrent stop(SUCCESS) found here is '
+            'closed by repo fix ce9b9520: full theorem) and cac_one_party_full_fails/_partial (an execution PAUSED during '
+            'its completion check is force-failed to ERROR: known finding, replayed on the real code). Tie B: race-wf stream = the '
+            'REAL completion / stop transactions with the REAL stop / pause / second completion check of another session '
+            'committed at every pre-lock SQL statement (statement tap), final row + write statements + exception equal '
+            'Mistral.Race.runWith on the generated script; monitor: a finished row is never altered, (state, output) come '
+            'from one party. ACTION RESULT ACCEPTANCE (Props.C03RaceAction over the regenerated script of '
+            'on_action_complete -> RegularAction.complete; the translator also asserts that no lock / compare-and-swap is on '
+            'that path): action_complete_overwrites, action_accept_once_full_fails (two results handled concurrently are both '
+            'accepted, the later flush overwrites the accepted one: known finding, replayed on the real engine by the '
+            'race-action stream) and action_accept_once_partial (true at transaction granularity).',
     'note': 'Monitors observe committed snapshots after each event (one transaction may contain two compare-and-swaps: '
-            'PAUSED->RUNNING->final on resume, modelled as a two-move path). Rerun is modelled in C12.',
+            'PAUSED->RUNNING->final on resume, modelled as a two-move path). Rerun is modelled in C12. Sub-transaction '
+            'interleavings between processes ARE exhibited, at SQL-statement granularity, for the workflow row under '
+            '_succeed_workflow / _fail_workflow / _cancel_workflow / Workflow.set_state (stop_workflow with any state, '
+            'force-fail), the completion-check transaction, and the action row under RegularAction.complete, against '
+            'arbitrary concurrent transactions on that row. They are still NOT exhibited for: Task.set_state / '
+            'Task.complete / defer (the task row in the same transaction), WorkflowAction results, pause / resume scripts, transactions over several rows (stop recursion into sub-workflows, '
+            'task and action rows), named locks, scheduler capture. Positions after the script\'s first successful write '
+            'are the model\'s row-lock rule only (in-memory sqlite cannot make a second writer wait); the ORM dirty check '
+            'and READ COMMITTED statement semantics are modelled and compared on sqlite, not on MySQL/PostgreSQL.',
 }
 RULE = ('stream lifecycle: EVERY state x EVERY operation (start/pause/resume/stop(9 targets)/complete(3 verdicts)/rerun '
         'on workflows; complete/update/defer/force-fail on tasks; result delivery on actions) on the real objects, '
         'exhaustive; stream engine: generated programs with operator commands injected at random points; '
-        'non-trivial = an operation whose guard matters (all lifecycle cases) / a trace with an operator command')
-TRUSTED = ['translate/states.py (AST read of states.py, fail closed)', 'harness seams replaced by recorders']
-LEAN_MODULES = ['Mistral.Props.C03']
+        'non-trivial = an operation whose guard matters (all lifecycle cases) / a trace with an operator command; '
+        'stream race-wf: 6 scenarios (completion check with verdict success/error/cancel, stop_workflow '
+        'SUCCESS/ERROR/CANCELLED) x 5 interferers (stop CANCELLED/ERROR/SUCCESS, pause, second completion check) x every '
+        'pre-lock significant SQL statement of the script (exhaustive, 81 cases); non-trivial = the interferer changed the row; '
+        'stream race-action: 3 pairs of results for one action execution x the 2 pre-lock statements of on_action_complete')
+TRUSTED = ['translate/states.py (AST read of states.py, fail closed)', 'harness seams replaced by recorders',
+           'translate/race_scripts.py (AST, fail closed); harness/race_driver.py: SQL statement tap, thread-local swap for the '
+           'second session; row-lock semantics (a second writer waits until commit) modelled, not executed on sqlite']
+LEAN_MODULES = ['Mistral.Props.C03', 'Mistral.Props.C03Race', 'Mistral.Props.C03RaceCac', 'Mistral.Props.C03RaceAction']
+RACE_CHUNKS = [{'family': 'wf', 'scenarios': ['cacSucceed', 'stopCancel']},
+               {'family': 'wf', 'scenarios': ['cacFail', 'stopSuccess']},
+               {'family': 'wf', 'scenarios': ['cacCancel', 'stopError']},
+               {'family': 'action'}]
 
 
 def correspond(ctx):
@@ -29,6 +68,9 @@ def correspond(ctx):
     w = engine_driver.EngineWorld(seed=ctx.seed)
     lifecycle_stream.run(ctx, w)
     from vlib import par
+    # statement granularity: the REAL completion transactions with the REAL stop / pause / second
+    # completion check of another process committed at every pre-lock statement gap (SQL tap)
+    par.run_parallel(ctx, 'harness.race_driver', 'run_chunk', RACE_CHUNKS)
     par.run_parallel(ctx, 'harness.engine_stream', 'run_chunk',
                      [{'n_programs': ctx.n(8, 250), 'props': ['C03'], 'mode': 'plain'}] * 5 +
                      [{'n_programs': ctx.n(8, 250), 'props': ['C03'], 'mode': 'ops'}] * 9)
@@ -36,10 +78,15 @@ def correspond(ctx):
 
 
 def search(ctx):
-    """failing-input search: the disagreeing cases run to the end under the statement monitors, then a wider
-    population of runs with operator commands"""
+    """failing-input search: (a broken statement-granularity theorem / translator refusal) every scenario x
+    interferer x gap of the race streams on the real code again (their monitors do not depend on the generated
+    scripts); the disagreeing cases run to the end under the statement monitors, then a wider population of runs
+    with operator commands"""
     from harness import engine_stream
     from vlib import par
+    par.run_parallel(ctx, 'harness.race_driver', 'run_chunk', RACE_CHUNKS)
+    if ctx.violations:
+        return
     engine_stream.search_from_core(ctx, ['C03'], 'plain')
     if ctx.violations:
         return
@@ -48,5 +95,20 @@ def search(ctx):
 
 
 def replay(ctx, rep):
+    r = rep.get('replay', rep)
+    if isinstance(r, dict) and r.get('kind') == 'race':
+        import json
+        from harness import race_driver
+        n0 = len(ctx.violations) + len(ctx.known_hit)
+        if r.get('family') == 'action':
+            race_driver.run_chunk(ctx, 'action')
+        else:
+            race_driver.run_chunk(ctx, 'wf', [r['scenario']], [r['interferer']])
+        print('replay: %s x %s at every gap -> %d hit(s); recorded: position %s (%s)' % (
+            r.get('scenario', r.get('script')), r['interferer'], len(ctx.violations) + len(ctx.known_hit) - n0,
+            r.get('position'), r.get('statement')))
+        for v in ctx.violations:
+            print('  ', v['what'][:300], json.dumps(v['signature']))
+        return
     from harness import engine_stream
     engine_stream.replay(ctx, rep, ['C03'])
